@@ -46,6 +46,8 @@ pub enum Tok {
     Str(String),
     Block(Vec<u8>),
     Expr(String),
+    /// character data built by device code: any bytes
+    ChrBytes(Vec<u8>),
 }
 
 #[derive(Clone, Debug, Serialize, Deserialize, Hash)]
@@ -82,6 +84,7 @@ fn keyword(s: &[u8]) -> Option<Kw> {
 fn token<'a>(t: &'a Tok) -> Token<'a> {
     match t {
         Tok::Chr(s) => Token::CharacterProgramData(s.as_bytes()),
+        Tok::ChrBytes(b) => Token::CharacterProgramData(b),
         Tok::Dec(s) => Token::DecimalNumericProgramData(s.as_bytes()),
         Tok::DecSuffix(s, x) => Token::DecimalNumericSuffixProgramData(s.as_bytes(), x.as_bytes()),
         Tok::NonDec(v) => Token::NonDecimalNumericProgramData(*v),
@@ -98,8 +101,12 @@ where
     let tok = token(&case.tok);
     let parsed: Result<NumericValue<T>, Error> = NumericValue::<T>::try_from(tok);
     // ---- parse oracle
-    let kw = if let Tok::Chr(s) = &case.tok { keyword(s.as_bytes()) } else { None };
-    let near_miss = matches!(&case.tok, Tok::Chr(_)) && kw.is_none();
+    let kw = match &case.tok {
+        Tok::Chr(s) => keyword(s.as_bytes()),
+        Tok::ChrBytes(b) => keyword(b),
+        _ => None,
+    };
+    let near_miss = matches!(&case.tok, Tok::Chr(_) | Tok::ChrBytes(_)) && kw.is_none();
     obs.label_if(kw.is_some(), "keyword");
     obs.label_if(near_miss, "character datum that is not a keyword");
     let under = T::try_from(tok);
@@ -456,7 +463,33 @@ fn check_operator(c: &(u8, u8, bool), obs: &Obs) -> CheckResult {
     Ok(())
 }
 
+const ALL_TY: [Ty; 7] = [Ty::U8, Ty::I32, Ty::I64, Ty::F32, Ty::F64, Ty::Freq, Ty::Time];
+
+/// Every form of every keyword with every byte value 0..=255 substituted at, and inserted before, every
+/// position (a token built by device code can carry any bytes; only ASCII letters in either case spell a keyword).
+fn keyword_byte_sweep() -> Vec<Case> {
+    let mut v = Vec::new();
+    let forms: [&[u8]; 10] = [b"MAX", b"MAXIMUM", b"MIN", b"MINIMUM", b"DEF", b"DEFAULT", b"UP", b"DOWN", b"maximum", b"def"];
+    for (fi, form) in forms.iter().enumerate() {
+        for pos in 0..=form.len() {
+            for b in 0u16..256 {
+                for insert in [false, true] {
+                    if !insert && pos == form.len() {
+                        continue;
+                    }
+                    let mut t = form.to_vec();
+                    if insert { t.insert(pos, b as u8) } else { t[pos] = b as u8 }
+                    let ty = ALL_TY[(fi + pos + b as usize) % ALL_TY.len()];
+                    v.push(Case { ty, tok: Tok::ChrBytes(t), min: 2f64.to_bits(), max: 100f64.to_bits(), default: Some(7f64.to_bits()), path: ((pos + b as usize) % 9) as u8 });
+                }
+            }
+        }
+    }
+    v
+}
+
 fn run(e: &Engine) {
+    e.fixed("every-keyword-every-byte-substituted", keyword_byte_sweep(), check);
     let ops: Vec<(u8, u8, bool)> = (0..6u8).flat_map(|k| (0..4u8).flat_map(move |op| [(k, op, false), (k, op, true)])).collect();
     e.fixed("operators-keep-special-forms", ops, check_operator);
     // bounded-exhaustive: EVERY letter string up to a length as a character datum of a numeric_value
@@ -477,7 +510,6 @@ fn run(e: &Engine) {
     // keyword chimeras (head of one keyword, tail of another, ...) for every type and builder path
     let chim = crate::model::mnemonic::keyword_chimeras();
     let chimr = &chim;
-    const ALL_TY: [Ty; 7] = [Ty::U8, Ty::I32, Ty::I64, Ty::F32, Ty::F64, Ty::Freq, Ty::Time];
     e.enumerate::<Case, _, _>(
         "keyword-chimeras",
         ALL_TY.len() as u64,
